@@ -17,6 +17,7 @@ def check(rep):
     ER.rule_fresh_per_parse(ctx, rid="C08.STARTS-IN-MAIN-STATE", kinds=("Lexer",))
     # a layout-only edit is still a different text for recompile(): the skip guard must compare the exact text
     ER.rule_skip_guard(ctx, rid="C08.SKIP-EXACT")
+    ER.rule_text_unmodified(ctx)
     # the comment state must be total: otherwise its error() (sly's default raises) is reachable
     for state, lc in ctx.lexers.items():
         if state == ctx.main.name:
